@@ -107,7 +107,7 @@ def make_run(sim, case):
 
 def gen(ctx, rng, i, tag):
     surv = rng.choice([None, None, True])
-    return pools.gen_pool_case(ctx, rng, i, tag, enqueue_fn_ok=False, survivor=surv, directed_late=(surv is None and i % 4 == 3))
+    return pools.gen_pool_case(ctx, rng, i, tag, enqueue_fn_ok=False, survivor=surv, directed_late=(surv is None and i % 4 == 3), double_death=(surv is None and i % 4 == 2))
 
 
 def plan(ctx):
